@@ -567,7 +567,30 @@ func genCfg(repo string) {
 	if fd := tf["unsafeInsertDenom"]; fd == nil || !strings.Contains(Nospace(fd.Body), "api.bankKeeper.SetDenomMetaData(ctx,denom.DefaultBankMetadata())") {
 		keeps = false
 	}
-	fmt.Printf("Definition current_cfg : cfg := {| c_rid := %s; c_tf_keeps_bank_md := %s |}.\n", rid, CoqBool(keeps))
+	// asset.Pair: the JSON codec used for every pair in a genesis file copies the string unchanged
+	pairID := false
+	{
+		un, ma, st := "", "", ""
+		for _, fl := range ParseDir(repo + "/x/common/asset") {
+			for _, d := range fl.F.Decls {
+				fd, ok := d.(*ast.FuncDecl)
+				if !ok || fd.Body == nil || fd.Recv == nil || !strings.Contains(Nospace(fd.Recv.List[0].Type), "Pair") {
+					continue
+				}
+				switch fd.Name.Name {
+				case "UnmarshalJSON":
+					un = Nospace(fd.Body)
+				case "MarshalJSON":
+					ma = Nospace(fd.Body)
+				case "String":
+					st = Nospace(fd.Body)
+				}
+			}
+		}
+		pairID = un == "{varpairStringstringiferr:=json.Unmarshal(data,&pairString);err!=nil{returnerr}*pair=Pair(pairString)returnnil}" &&
+			ma == "{returnjson.Marshal(pair.String())}" && st == "{returnstring(pair)}"
+	}
+	fmt.Printf("Definition current_cfg : cfg := {| c_rid := %s; c_tf_keeps_bank_md := %s; c_pair_json_id := %s |}.\n", rid, CoqBool(keeps), CoqBool(pairID))
 	fmt.Printf("(* unsafeGenesisInsertDenom: %s *)\n", strings.ReplaceAll(src, "*)", "* )"))
 }
 
